@@ -230,6 +230,66 @@ def generate(case):
     return A.generate_square(case["widths"][0], type=SQ.SquareMode(case["mode"]), big_endian=be)
 
 
+def concrete_mismatch(kind, mode, widths, tries=3000, seed=1):
+    """Concrete search for a wrong product at true width (used to confirm a compositional failure)."""
+    import random as _r
+
+    rnd = _r.Random(seed)
+    if kind == "square":
+        c = A.generate_square(widths[0], type=SQ.SquareMode(mode))
+    elif mode == "KARATSUBA_PLAIN":
+        from cirbo.core.circuit import Circuit
+
+        c = Circuit.bare_circuit(sum(widths))
+        c.set_outputs(A.add_mul_karatsuba(c, c.inputs[:widths[0]], c.inputs[widths[0]:]))
+    else:
+        c = A.generate_mul(widths[0], widths[1], type=M.MulMode(mode))
+    n = widths[0]
+    total = sum(widths)
+    pats = [[True] * total, [False] * total, [True] * n + [False] * (total - n), [i % 2 == 0 for i in range(total)], [i % 2 == 1 for i in range(total)]]
+    pats += [[True] * total for _ in range(1)]
+    for i in range(total):
+        x = [True] * total
+        x[i] = False
+        pats.append(x)
+    pats += [[rnd.random() < pr for _ in range(total)] for pr in (0.5, 0.9, 0.1, 0.75) for _ in range(tries // 4)]
+    for x in pats:
+        a = sum(int(v) << i for i, v in enumerate(x[:n]))
+        b = sum(int(v) << i for i, v in enumerate(x[n:])) if len(widths) > 1 else a
+        got = sum(int(bool(v)) << i for i, v in enumerate(c.evaluate(list(x))))
+        if got != a * b:
+            return x, a, b, got
+    return None
+
+
+def compositional_unit(p, item, tier, seed):
+    from checks import c08_comp
+
+    kind, mode, widths, max_leaf_bits, leaf_to = item
+    if kind == "mul":
+        probs, stats = c08_comp.karatsuba_true_width(p, mode, widths[0], widths[1], max_leaf_bits=max_leaf_bits, leaf_timeout_ms=leaf_to)
+    else:
+        probs, stats = c08_comp.square_true_width(p, widths[0])
+    p.case(("c08-comp", kind, mode, tuple(widths)), sample=f"compositional true-width {kind} {mode} {widths}: {stats}")
+    for k, v in stats.items():
+        if isinstance(v, int):
+            p.count(f"comp_{k}", v)
+    hard = [x for x in probs if "inconclusive" not in x]
+    for x in probs:
+        if "inconclusive" in x:
+            p.inconclusive.append(x)
+    if hard:
+        mm = concrete_mismatch(kind, mode, widths)
+        if mm is None:
+            # the compositional argument failed but no concrete wrong product was found: not reported as a violation
+            p.inconclusive.append(f"compositional check of {kind} {mode} {widths} failed ({hard[0]}) but 3000 targeted concrete operand pairs multiply correctly")
+            p.queries["unknown"] += 1
+            return
+        x, a, b, got = mm
+        p.violation(f"mul:true-width:{kind}:{mode}", f"{kind} {mode} {widths}: {hard[:2]}; concrete witness {a} * {b} gives {got}",
+                    REPLAY_PRELUDE + "from checks import c08\n" + f"mm=c08.concrete_mismatch({kind!r}, {mode!r}, {widths!r})\nprint(mm and mm[1:])\nsys.exit(1 if mm else 0)\n")
+
+
 def make_cases(tier, rnd):
     thorough = tier == "thorough"
     cases = []
@@ -298,7 +358,7 @@ def run(rep, tier, seed, only=None):
                      "square.add_square (twin for the split) / add_square_pow2_m1", "generate_mul / generate_square"]
     rep.bounds = {"(n,m)": "all pairs with n+m<=8 and widths<=5 + diagonal to 7x7 (quick); all <=8x8 + 9x9 per mode (thorough)",
                   "squares": "n<=14 (quick) / <=20 (thorough)", "twins": f"guards 20->6, 18->4 ({hits[0]} literals), 48->4, [49,53]->[5] ({hits[1]} literals); widths <= 8 (mul), <= 12 (square)"}
-    rep.outside = ["true-width Karatsuba recursion (n>=20 or n==18) and squarer split (n>=48): only the threshold-shrunk twins are decided; the guards themselves are not covered",
+    rep.outside = ["bit-exact leaf multipliers wider than 9x9 inside the true-width recursion (assumed, see bounds); monolithic true-width equivalence is out of the solver's reach",
                    "widths above the listed ones"]
     rep.rule = "case = (mode, widths, endianness, host kind); operand values quantified by z3 (out == bvmul, product fits)"
     rep.explanation = "z3 decides out == a*b for all operand values per enumerated configuration"
@@ -313,3 +373,15 @@ def run(rep, tier, seed, only=None):
     work = [dict(seed=seed * 1000 + i, cases=[c]) for i, c in enumerate(heavy)]
     work += [dict(seed=seed * 1000 + 500 + i, cases=light[i::48]) for i in range(48)]
     rep.pmap(unit, [w for w in work if w["cases"]])
+    if only is None or "comp" in only:
+        thorough = tier == "thorough"
+        comp = [("mul", "KARATSUBA", [18, 18]), ("mul", "KARATSUBA_PLAIN", [18, 18]), ("mul", "KARATSUBA", [20, 20]), ("mul", "KARATSUBA", [21, 21]),
+                ("mul", "KARATSUBA_PLAIN", [23, 17]), ("square", "DEFAULT", [48]), ("square", "DEFAULT", [50])]
+        if thorough:
+            comp += [("mul", md, [n, m]) for md in ("KARATSUBA", "KARATSUBA_PLAIN") for n, m in ((19 + k, 19 + k) for k in range(1, 8))]
+            comp += [("mul", "KARATSUBA", [24, 15]), ("mul", "KARATSUBA", [14, 25]), ("mul", "KARATSUBA", [36, 36]), ("mul", "KARATSUBA", [40, 40]), ("mul", "KARATSUBA_PLAIN", [42, 43]),
+                     ("square", "DEFAULT", [51]), ("square", "DEFAULT", [56]), ("square", "DEFAULT", [64])]
+        rep.pmap(compositional_unit, [(k, md, w, 18 if thorough else 12, 900000 if thorough else 30000) for k, md, w in comp])
+        rep.bounds["true-width recursion (compositional)"] = ("Karatsuba 18x18, 20x20, 21x21, 23x17 and squarer 48, 50 (quick); 20..26, 24x15, 14x25, 36, 40, 42x43, squares 51, 56, 64 (thorough): "
+                                                              "recombination + wiring + algebra lemma discharged per recursive node; leaf multipliers wider than "
+                                                              + ("9x9" if thorough else "6x6") + " are assumed (same width-generic code as the directly decided widths)")
